@@ -327,6 +327,33 @@ Proof.
   intros E2. eapply only_bals_trans; [eapply spend_spec | eapply credit_spec]; eauto.
 Qed.
 
+(** A delegation only lowers balances (never below what is on hold) and vesting locks. *)
+Lemma delegate_coins_spec a cs : forall s s', delegate_coins s a cs = Some s' -> only_bals s s'.
+Proof.
+  induction cs as [|[d0 v] r IH]; intros s s' H; cbn [delegate_coins fst snd] in H.
+  - injection H as <-. apply only_bals_refl.
+  - destruct (bal_of s a d0 - hold_of s a d0 <? v) eqn:Esp; [discriminate|].
+    apply IH in H. eapply only_bals_trans; [|exact H].
+    split; [repeat split|]. split; [reflexivity|].
+    intros Hle a' d.
+    change (bal_of (set_vest ?x _) a' d) with (bal_of x a' d).
+    rewrite bal_of_aset.
+    change (hold_of (set_vest (set_bals s _) _) a' d) with (hold_of s a' d).
+    pose proof (Hle a' d). zeqb; cbn [andb]; lia.
+Qed.
+
+Lemma delegate_spec a cs s s' : delegate a cs s = Some s' -> only_bals s s'.
+Proof.
+  unfold delegate. destruct (coins_pos cs && nodupb (map fst cs)); cbn [negb]; [|discriminate].
+  apply delegate_coins_spec.
+Qed.
+
+Lemma set_time_spec v s s' : set_time v s = Some s' -> only_bals s s'.
+Proof.
+  unfold set_time. intros H. injection H as <-.
+  split; [repeat split|]. split; [reflexivity|]. intros Hle a d. exact (Hle a d).
+Qed.
+
 Lemma net_untouched (xs : list (key2 * Z)) : forall b k,
   ~ In k (map fst xs) ->
   zget k (fold_left (fun b x => aset k2_eqb (fst x) (zget (fst x) b + snd x) b) xs b) = zget k b.
@@ -850,6 +877,8 @@ Proof.
   - intros H. injection H as <-. apply pres_refl.
   - intros H. apply set_ext_id_same in H. subst s'. apply pres_refl.
   - intros H. eapply only_bals_pres, credit_spec, H.
+  - intros H. eapply only_bals_pres, delegate_spec, H.
+  - intros H. eapply only_bals_pres, set_time_spec, H.
   - apply close_market_pres.
 Qed.
 
